@@ -42,8 +42,12 @@ Record conn := { c_open : bool; c_addr : N; c_cc : option cc }.
      CBroken  non-empty but unusable: not base64, too short, not decryptable, sealed under another master key *)
 Inductive cred := CKey (n : N) | CEmpty | CBroken.
 Definition secret_of (c : cred) : option N := match c with CKey n => Some n | _ => None end.
-(* models.ClientConfig: the stored credential and IsExpired() *)
-Record client := { stored : cred; expired : bool }.
+(* models.ClientConfig.  The handshake gates on exactly two things of the record:
+     stored    what SecretKeyEncrypted decrypts to
+     expired   IsExpired(): ExpiresAt is set and lies in the past
+   Every other field (UserID — bound to a user or not —, Type, Name, AuthCode, SecretKey (legacy), SecretKeyVersion,
+   Config, FirstConnectedAt, LastIP*, timestamps) is abstracted into [meta]; no model function reads it. *)
+Record client := { stored : cred; expired : bool; meta : N }.
 
 Record srv := {
   clients : N -> option client;     (* CloudControl.GetClientConfig *)
@@ -93,7 +97,7 @@ Definition bump_nonce (s : srv) := {| clients := clients s; next_id := next_id s
   conns := conns s; index := index s |}.
 (* GenerateAnonymousCredentials: a new id with a new secret, not expired (ExpiresAt = now + 30 days) *)
 Definition register (s : srv) := {|
-  clients := upd (clients s) (next_id s) (Some {| stored := CKey (next_secret s); expired := false |});
+  clients := upd (clients s) (next_id s) (Some {| stored := CKey (next_secret s); expired := false; meta := 0 |});
   next_id := next_id s + 1; next_secret := next_secret s + 1;
   next_nonce := next_nonce s; banned := banned s; black := black s; fails := fails s; rl_deny := rl_deny s;
   conns := conns s; index := index s |}.
@@ -101,7 +105,7 @@ Definition register (s : srv) := {|
 Definition rekey (s : srv) (x : N) := match clients s x with
   | None => s
   | Some cl => {|
-      clients := upd (clients s) x (Some {| stored := CKey (next_secret s); expired := expired cl |});
+      clients := upd (clients s) x (Some {| stored := CKey (next_secret s); expired := expired cl; meta := meta cl |});
       next_id := next_id s; next_secret := next_secret s + 1;
       next_nonce := next_nonce s; banned := banned s; black := black s; fails := fails s; rl_deny := rl_deny s;
       conns := conns s; index := index s |}
@@ -238,7 +242,13 @@ Inductive ev :=
 | EExpire (x : N) | EDelete (x : N) | EDelAnon (x : N) | ERekey (x : N) | ERegister
 | ECorrupt (x : N) (empty : bool)        (* the stored credential of x becomes "" / an undecryptable string *)
 | ERate (deny : bool)
-| EClose (k : N) | EOpen (k a : N).
+| EClose (k : N) | EOpen (k a : N)
+| ESetRecord (x : N) (e : bool) (m : N)  (* the record of x is rewritten: ExpiresAt past (e = true) / future or nil (e = false);
+                                            UserID, Type and the other non-gate fields become m *)
+| EBanLapse (a : N)                      (* a short temporary ban on a is requested and runs out.  banIP never weakens a ban in force,
+                                            and an expired record does not ban: the set of banned addresses is unchanged *)
+| EUnbanLands (a : N).                   (* the asynchronous unbanIfExpired(a) spawned by IsBanned runs: it deletes only a record that
+                                            is (still) expired under the lock, i.e. never a ban in force *)
 
 (* what survives a restart of the server process: everything the code keeps in storage — client configs (and the id /
    secret / nonce numbering of the abstraction) and the IP blacklist.  In process memory only, hence lost: connections and
@@ -266,10 +276,10 @@ Definition step (v : variant) (s : srv) (e : ev) : srv * out :=
   | EUnblackC a => (set_black s (upd (black s) (k_cidr a) false), no_out)
   | ERestart lapsed => (restart (match lapsed with Some a => set_black s (upd (black s) (k_ip a) false) | None => s end), no_out)
   | EExpire x => (match clients s x with
-                  | Some cl => set_clients s (upd (clients s) x (Some {| stored := stored cl; expired := true |}))
+                  | Some cl => set_clients s (upd (clients s) x (Some {| stored := stored cl; expired := true; meta := meta cl |}))
                   | None => s end, no_out)
   | ECorrupt x e => (match clients s x with
-                     | Some cl => set_clients s (upd (clients s) x (Some {| stored := if e then CEmpty else CBroken; expired := expired cl |}))
+                     | Some cl => set_clients s (upd (clients s) x (Some {| stored := if e then CEmpty else CBroken; expired := expired cl; meta := meta cl |}))
                      | None => s end, no_out)
   | EDelete x => (set_clients s (upd (clients s) x None), no_out)
   | EDelAnon x => (if v_anon_delete v then set_clients s (upd (clients s) x None) else s, no_out)
@@ -279,6 +289,11 @@ Definition step (v : variant) (s : srv) (e : ev) : srv * out :=
   | EClose k => (close s k, no_out)
   | EOpen k a => let s1 := close s k in
                  (set_conns s1 (upd (conns s1) k (Some {| c_open := true; c_addr := a; c_cc := None |})), no_out)
+  | ESetRecord x e m => (match clients s x with
+                         | Some cl => set_clients s (upd (clients s) x (Some {| stored := stored cl; expired := e; meta := m |}))
+                         | None => s end, no_out)
+  | EBanLapse _ => (s, no_out)
+  | EUnbanLands _ => (s, no_out)
   end.
 
 Fixpoint run (v : variant) (s : srv) (es : list ev) : srv :=
